@@ -1,0 +1,186 @@
+//! Verification hooks (feature `verif-hooks`, off by default).
+//!
+//! Thin public wrappers over crate-private items so that an external
+//! harness can observe them through plain types. Nothing in here is used
+//! by the library itself except `SignRng` and the two retry counters,
+//! which `falcon::sign` touches only when this feature is enabled.
+
+use std::cell::{Cell, RefCell};
+
+use num_complex::Complex64;
+use rand::{rngs::ThreadRng, RngCore};
+
+use crate::{
+    falcon::FalconVariant,
+    falcon_field::Felt,
+    fast_fft::FastFft,
+    polynomial::Polynomial,
+};
+
+pub use crate::falcon_field::verif as felt;
+pub use crate::fast_fft::verif as tables;
+pub use crate::math::verif as keygen_parts;
+pub use crate::samplerz::verif as samplerz;
+
+// ---------------------------------------------------------------- Z_q transforms
+
+fn to_felts(v: &[i16]) -> Polynomial<Felt> {
+    Polynomial::new(v.iter().map(|&c| felt::from_canonical(c)).collect())
+}
+
+fn from_felts(p: Polynomial<Felt>) -> Vec<i16> {
+    p.coefficients.iter().map(|c| c.value()).collect()
+}
+
+/// Forward NTT of a vector of canonical residues.
+pub fn ntt(v: &[i16]) -> Vec<i16> {
+    from_felts(to_felts(v).fft())
+}
+
+/// Inverse NTT of a vector of canonical residues.
+pub fn intt(v: &[i16]) -> Vec<i16> {
+    from_felts(to_felts(v).ifft())
+}
+
+pub fn ntt_split(v: &[i16]) -> (Vec<i16>, Vec<i16>) {
+    let (a, b) = to_felts(v).split_fft();
+    (from_felts(a), from_felts(b))
+}
+
+pub fn ntt_merge(a: &[i16], b: &[i16]) -> Vec<i16> {
+    from_felts(Polynomial::<Felt>::merge_fft(&to_felts(a), &to_felts(b)))
+}
+
+/// Pointwise product of two transform-domain vectors.
+pub fn ntt_hadamard_mul(a: &[i16], b: &[i16]) -> Vec<i16> {
+    from_felts(to_felts(a).hadamard_mul(&to_felts(b)))
+}
+
+// ---------------------------------------------------------------- complex transforms
+
+fn to_cplx(v: &[(f64, f64)]) -> Polynomial<Complex64> {
+    Polynomial::new(v.iter().map(|&(re, im)| Complex64::new(re, im)).collect())
+}
+
+fn from_cplx(p: Polynomial<Complex64>) -> Vec<(f64, f64)> {
+    p.coefficients.iter().map(|c| (c.re, c.im)).collect()
+}
+
+pub fn cfft(v: &[(f64, f64)]) -> Vec<(f64, f64)> {
+    from_cplx(to_cplx(v).fft())
+}
+
+pub fn cifft(v: &[(f64, f64)]) -> Vec<(f64, f64)> {
+    from_cplx(to_cplx(v).ifft())
+}
+
+pub fn csplit(v: &[(f64, f64)]) -> (Vec<(f64, f64)>, Vec<(f64, f64)>) {
+    let (a, b) = to_cplx(v).split_fft();
+    (from_cplx(a), from_cplx(b))
+}
+
+pub fn cmerge(a: &[(f64, f64)], b: &[(f64, f64)]) -> Vec<(f64, f64)> {
+    from_cplx(Polynomial::<Complex64>::merge_fft(&to_cplx(a), &to_cplx(b)))
+}
+
+pub fn chadamard_mul(a: &[(f64, f64)], b: &[(f64, f64)]) -> Vec<(f64, f64)> {
+    from_cplx(to_cplx(a).hadamard_mul(&to_cplx(b)))
+}
+
+// ---------------------------------------------------------------- codec, hash, parameters
+
+pub fn compress(v: &[i16], byte_length: usize) -> Option<Vec<u8>> {
+    crate::encoding::compress(v, byte_length)
+}
+
+pub fn decompress(x: &[u8], n: usize) -> Option<Vec<i16>> {
+    crate::encoding::decompress(x, n)
+}
+
+pub fn hash_to_point(string: &[u8], n: usize) -> Vec<i16> {
+    from_felts(crate::polynomial::hash_to_point(string, n))
+}
+
+/// (sigma, sigmin, sig_bound, sig_bytelen) for n in {512, 1024}.
+pub fn params(n: usize) -> (f64, f64, i64, usize) {
+    let p = match n {
+        512 => FalconVariant::Falcon512.parameters(),
+        1024 => FalconVariant::Falcon1024.parameters(),
+        _ => panic!("params: n must be 512 or 1024"),
+    };
+    (p.sigma, p.sigmin, p.sig_bound, p.sig_bytelen)
+}
+
+// ---------------------------------------------------------------- signer randomness
+
+thread_local! {
+    static SCRIPTED: RefCell<Option<Box<dyn RngCore>>> = RefCell::new(None);
+    static NORM_RETRIES: Cell<u64> = Cell::new(0);
+    static COMPRESS_RETRIES: Cell<u64> = Cell::new(0);
+}
+
+/// The generator `falcon::sign` draws from when the hooks are compiled in.
+/// It delegates to `thread_rng` unless the calling thread has installed a
+/// scripted source with [`with_sign_rng`].
+pub struct SignRng(ThreadRng);
+
+impl SignRng {
+    pub fn wrap(inner: ThreadRng) -> Self {
+        SignRng(inner)
+    }
+}
+
+impl RngCore for SignRng {
+    fn next_u32(&mut self) -> u32 {
+        SCRIPTED.with(|s| match s.borrow_mut().as_mut() {
+            Some(r) => r.next_u32(),
+            None => self.0.next_u32(),
+        })
+    }
+    fn next_u64(&mut self) -> u64 {
+        SCRIPTED.with(|s| match s.borrow_mut().as_mut() {
+            Some(r) => r.next_u64(),
+            None => self.0.next_u64(),
+        })
+    }
+    fn fill_bytes(&mut self, dest: &mut [u8]) {
+        SCRIPTED.with(|s| match s.borrow_mut().as_mut() {
+            Some(r) => r.fill_bytes(dest),
+            None => self.0.fill_bytes(dest),
+        })
+    }
+    fn try_fill_bytes(&mut self, dest: &mut [u8]) -> Result<(), rand::Error> {
+        self.fill_bytes(dest);
+        Ok(())
+    }
+}
+
+/// Run `f` with `source` installed as the calling thread's signer randomness.
+pub fn with_sign_rng<T>(source: Box<dyn RngCore>, f: impl FnOnce() -> T) -> T {
+    struct Reset;
+    impl Drop for Reset {
+        fn drop(&mut self) {
+            SCRIPTED.with(|s| *s.borrow_mut() = None);
+        }
+    }
+    SCRIPTED.with(|s| *s.borrow_mut() = Some(source));
+    let _reset = Reset;
+    f()
+}
+
+pub(crate) fn count_norm_retry() {
+    NORM_RETRIES.with(|c| c.set(c.get() + 1));
+}
+
+pub(crate) fn count_compress_retry() {
+    COMPRESS_RETRIES.with(|c| c.set(c.get() + 1));
+}
+
+/// (norm retries, compression retries) taken by `sign` on this thread since the
+/// last call; resets both.
+pub fn take_sign_counters() -> (u64, u64) {
+    (
+        NORM_RETRIES.with(|c| c.replace(0)),
+        COMPRESS_RETRIES.with(|c| c.replace(0)),
+    )
+}
